@@ -16,14 +16,69 @@ REQUIRED_PROBES = [
 ]
 
 
-def build(corpus_seed, random_types):
-    rc, out = sh(["python3", os.path.join(CRATE, "gen.py"), "--corpus-seed", str(corpus_seed), "--random-types", str(random_types)])
+GEN_CORPUS = os.path.join(CRATE, "src", "generated", "corpus.rs")
+
+
+def gen(corpus_seed, random_types, exclude=()):
+    rc, out = sh(["python3", os.path.join(CRATE, "gen.py"), "--corpus-seed", str(corpus_seed), "--random-types", str(random_types),
+                  "--exclude", ",".join(str(x) for x in sorted(exclude))])
     if rc != 0:
         raise Harness("gen.py failed:\n" + out)
+
+
+def cargo_build():
     shutil.copyfile("/repo/Cargo.lock", os.path.join(CRATE, "Cargo.lock"))
-    rc, out = sh(["cargo", "build", "--release", "--offline", "--target-dir", os.path.join(BUILD, "fmtsim")], cwd=CRATE)
-    if rc != 0:
-        raise Harness("fmtsim does not build against /repo's working tree (corpus seed %d):\n%s" % (corpus_seed, out[-6000:]))
+    return sh(["cargo", "build", "--release", "--offline", "--target-dir", os.path.join(BUILD, "fmtsim")], cwd=CRATE)
+
+
+def attribute_errors(out):
+    """Map rustc errors to corpus types. Returns ({type idx: first error text}, unattributed?)"""
+    import re
+    markers = []  # (line, idx, module)
+    for n, line in enumerate(open(GEN_CORPUS), 1):
+        m = re.match(r"\s*// @type (\d+) (\w+)", line)
+        if m:
+            markers.append((n, int(m.group(1)), m.group(2)))
+    by_type, other = {}, False
+    blocks = re.split(r"\n(?=error)", out)
+    for b in blocks:
+        if not b.startswith("error") or b.startswith("error: could not compile") or b.startswith("error: aborting"):
+            continue
+        locs = re.findall(r"--> src/generated/corpus\.rs:(\d+):", b)
+        if not locs:
+            other = True
+            continue
+        ln = int(locs[0])
+        prev = [m for m in markers if m[0] <= ln]
+        if not prev or prev[-1][2] != "dm":
+            other = True
+            continue
+        by_type.setdefault(prev[-1][1], b.strip()[:1500])
+    return by_type, other
+
+
+def build(corpus_seed, random_types):
+    """Builds fmtsim. Returns {type idx: rustc error} for corpus types on which derive_more::Debug does not
+    compile although the reference twins do (those derives are then replaced by the reference impl so that
+    the rest of the corpus can still be simulated)."""
+    failing = {}
+    for _ in range(6):
+        gen(corpus_seed, random_types, failing.keys())
+        rc, out = cargo_build()
+        if rc == 0:
+            return failing
+        by_type, other = attribute_errors(out)
+        if other or not by_type or all(t in failing for t in by_type):
+            raise Harness("fmtsim does not build against /repo's working tree (corpus seed %d):\n%s" % (corpus_seed, out[-6000:]))
+        failing.update(by_type)
+    raise Harness("fmtsim: too many rounds of corpus types failing to compile: %s" % sorted(failing))
+
+
+def corpus_src(idx):
+    import re
+    txt = open(GEN_CORPUS).read()
+    m = re.search(r"pub static TYPE_SRCS: \[&str; N_TYPES\] = \[\n(.*?)\n\];", txt, re.S)
+    return None if not m else m.group(1).split(",\n")[idx]
 
 
 def run_batch(seed, cases, threads, tag, start=0):
@@ -57,7 +112,14 @@ def main(tier, seed, replay):
 def do_replay(path):
     v = json.load(open(path))
     cs = v.get("corpus_seed", 1)
-    build(cs, v.get("corpus_random_types", 140))
+    failing = build(cs, v.get("corpus_random_types", 140))
+    if v.get("kind") == "does-not-compile":
+        if v["type_idx"] in failing:
+            print(failing[v["type_idx"]])
+            print("VIOLATION property=C06 replay=%s" % path)
+            return 1
+        print("corpus type %d compiles under derive_more::Debug" % v["type_idx"])
+        return 0
     rc, out = sh([BIN, "replay", path])
     print(out, end="")
     return rc
@@ -76,7 +138,15 @@ def do_check(tier, seed, t0):
     kf_seen = None
     sim_s = 0.0
     for (cseed, rtypes, cases) in plan:
-        build(cseed, rtypes)
+        failing = build(cseed, rtypes)
+        for idx, err in sorted(failing.items()):
+            path = os.path.join(REPLAYS, "C06-%d-compile-c%d-t%d.json" % (seed, cseed, idx))
+            json.dump({"property": "C06", "engine": "fmtsim", "kind": "does-not-compile", "seed": seed, "corpus_seed": cseed, "corpus_random_types": rtypes,
+                       "type_idx": idx, "type_src": corpus_src(idx),
+                       "what": "derive_more::Debug does not compile on a type that std's derive / the reference impl accepts, so it cannot print what std prints",
+                       "rustc_error": err}, open(path, "w"), indent=1, ensure_ascii=False)
+            viol_lines.append("VIOLATION property=C06 replay=%s" % path)
+            log("  %s: derive_more::Debug does not compile on corpus type %d" % (path, idx))
         a = run_batch(seed, cases, 16, "a")
         # the simulator must be deterministic first: same seed, other worker count, fresh process
         check_n = cases if tier == "quick" else min(cases, 2_000_000)
